@@ -83,7 +83,34 @@ def derive(api, rng, convs, recs_of):
     return kind, call(curies.discover, uris, converter=c, cutoff=rng.choice([None, 1, 2])), [c]
 
 
+def at_scale_case(ctx, g, rng):
+    """the derivations on an input far above any plausible threshold; the frame monitor fingerprints as usual"""
+    import curies
+
+    api, S = ctx.api, probe.S
+    n = rng.choice([150, 400]) if ctx.tier == "thorough" else 90
+    recs = gen.large_records(rng, n)
+    with probe.monitor_mode():
+        c = api.Converter([gen.mk_record(api, r) for r in recs])
+        other = api.Converter([api.Record(prefix=f"q{i}", uri_prefix=r.uri_prefix, uri_prefix_synonyms=[f"http://q/{i}/"]) for i, r in enumerate(rng.sample(recs, k=20))])
+    some = rng.sample(recs, k=25)
+    call(api.chain, [c, other])
+    call(api.chain, [other, c], case_sensitive=False)
+    o = call(c.get_subconverter, [r.prefix for r in some])
+    if o[0] == "ret":
+        r0 = some[0]
+        call(o[1].add_prefix, r0.prefix, r0.uri_prefix, ["zzsyn"], ["http://zz.syn/"], merge=True)
+    call(curies.remap_curie_prefixes, c, {r.prefix: "new" + r.prefix for r in some})
+    call(curies.remap_uri_prefixes, c, {r.uri_prefix: "http://moved/" + r.prefix + "/" for r in some})
+    call(curies.rewire, c, {r.prefix: "http://rewired/" + r.prefix + "/" for r in some})
+    call(curies.discover, [r.uri_prefix + str(i) for r in some for i in range(3)] + [f"http://d/{i}" for i in range(50)], converter=c)
+    S.counters[f"wl:at-scale:n{n}"] += 1
+    probe.note_key(f"at-scale:n{n}", True)
+
+
 def run_case(ctx, g, rng):
+    if g % 120 == 120 - 1:
+        return at_scale_case(ctx, g, rng)
     api, S = ctx.api, probe.S
     # inputs with a past: constructed, registered record by record, or grown through merges (DESIGN 11.4)
     inputs = [gen.build(api, gconv(rng), ":", rng, share_lists=True)[0] for _ in range(rng.randint(1, 3))]
